@@ -298,6 +298,35 @@ def check_failure(ctx, rep, cls_qual, f, g, what):
                    "EOFError is raised for end-of-stream without closing the stream", ctx.loc(n))
 
 
+def check_oserror_coverage(ctx, rep, cls_qual, what, names):
+    """typed exceptional edges: the OS-level call raises OSError (socket.timeout is one); no OSError may leave the
+    function raw"""
+    short = cls_qual.split(".")[-1]
+    f = ctx.func(cls_qual + "." + what)
+    oscalls = _os_calls(f.node, names)
+
+    def raises(node_ast, kind):
+        if node_ast is None or kind in ("with_exit", "except", "with_enter"):
+            return set()
+        if isinstance(node_ast, ast.Raise):
+            return None
+        if any(c is oc for oc in oscalls for c in A.calls(node_ast)):
+            return {OSError}
+        return set()
+    g = ctx.cfg(f, raises=raises)
+    leaks = set()
+    for (a, b), ts in g.etypes.items():
+        if b == g.excexit.id:
+            for t in ts:
+                if not issubclass(t, EOFError):
+                    leaks.add(t.__name__)
+    rep.ob("R05.3", "%s.%s: no transport error leaves the function raw" % (short, what), not leaks,
+           "every OSError raised by the OS call (timeouts included) is caught and converted" if not leaks else
+           "an OSError of the OS call that is not covered by the handler (e.g. socket.timeout / TimeoutError when only "
+           "ConnectionError is caught) leaves %s() as %s: the stream is not closed and the caller does not get EOFError - a "
+           "half-written frame is followed by the next packet" % (what, sorted(leaks)), f.loc)
+
+
 def check_close(ctx, rep, cls_qual, field):
     short = cls_qual.split(".")[-1]
     f = ctx.func(cls_qual + ".close")
@@ -579,6 +608,8 @@ def run(ctx, rep):
         check_failure(ctx, rep, cq, f, g, "read")
         f, g = check_write(ctx, rep, cq)
         check_failure(ctx, rep, cq, f, g, "write")
+        check_oserror_coverage(ctx, rep, cq, "write", SEND_NAMES)
+        check_oserror_coverage(ctx, rep, cq, "read", RECV_NAMES)
         check_close(ctx, rep, cq, fields[cq])
     check_channel(ctx, rep)
     # R05.5 shares R12.4
